@@ -84,7 +84,7 @@ def describe(tier):
         'bounds': '2^6 placements x 3 restart options per (scheme, database); 7 steps',
         'assumptions': ['in-memory transport instead of TCP (validated by mc/loopback.py on loopback TCP)',
                         'server restart = the server process is killed between two client commands and started again on the same directory'],
-        'must_be_nonzero': ['workflows', 'absent-searched', 'server-restarts', 'reloads', 'tcp-loopback-replays', 'two-service-workflows', 'patterned-keys', 'timing-variants', 'early-object-variants', 'cli-workflows', 'large-workflows', 'concurrent-searches'],
+        'must_be_nonzero': ['workflows', 'absent-searched', 'server-restarts', 'reloads', 'tcp-loopback-replays', 'two-service-workflows', 'patterned-keys', 'timing-variants', 'early-object-variants', 'cli-workflows', 'large-workflows', 'concurrent-searches', 'cli-name-collisions'],
     }
 
 
@@ -353,13 +353,15 @@ def run_two_services(r, seed, name, order):
     r.sample(case, limit=1)
 
 
-def run_cli(r, seed, name, dbi):
+def run_cli(r, seed, name, dbi, same_process=False):
     """the whole workflow through frontend/client/commands.py - the functions run_client.py dispatches to: configuration and
     database come from JSON FILES, the service is addressed by name, every command is a fresh client 'process', results are
     what the command prints in the hex and int formats"""
     import io, contextlib, re, ast
     from toolkit.database_utils import convert_database_keyword_to_bytes
     case = {'scheme': name, 'db': dbi, 'cli': True}
+    if same_process:
+        case['same_process'] = True          # the commands module used as a library: module-level caches live across commands
     core.note_case(case)
     det.seed_case(seed, PROPERTY, name, dbi, 'cli')
     jdb = json_dbs()[dbi]
@@ -392,8 +394,9 @@ def run_cli(r, seed, name, dbi):
                     except ValueError:
                         pass
 
-        def run(f, *a, **k):
-            fresh_process()
+        def run(f, *a, expect_error=False, **k):
+            if not same_process:
+                fresh_process()
             n[0] += 1
             buf = io.StringIO()
 
@@ -413,15 +416,24 @@ def run_cli(r, seed, name, dbi):
                     w.client_sids.append(d)
                     w.sids.append(d)
             text = buf.getvalue()
-            if re.search(r'error', text, re.I) or 'Unsupported' in text:
+            if (re.search(r'error', text, re.I) or 'Unsupported' in text) and not expect_error:
                 raise RuntimeError('command printed: ' + text.strip().splitlines()[-1][:200])
             return text
         sname = 'svc-%s' % name
+        fresh_process()              # this execution starts in a new process in either mode
         for step, f, a in (('create', cmd.create_service, (cfg_path, sname)), ('genkey', cmd.generate_key, ()), ('encrypt', cmd.encrypt_database, (db_path,)),
                            ('upload-config', cmd.upload_config, ()), ('upload-index', cmd.upload_encrypted_database, ())):
             r['transitions'] += 1
             run(f, *a, **({} if step == 'create' else {'sname': sname}))
         for fmt in ('hex', 'int'):
+            if fmt == 'int':
+                # between the two search rounds: the same name is asked for again (the name is taken: refused, whatever else
+                # happens), then another service is created under another name; the first name still means the first service
+                step = 'create-under-taken-name'
+                run(cmd.create_service, cfg_path, sname, expect_error=True)
+                step = 'create-under-another-name'
+                run(cmd.create_service, cfg_path, sname + '-2')
+                r.count('cli-name-collisions')
             for kw in list(jdb) + ['absent-keyword']:
                 step = 'search/%s' % fmt
                 r['transitions'] += 1
@@ -462,6 +474,7 @@ def run_unit(p, tier, seed):
     if 'cli' in p:
         for dbi in (0, 1, 2):
             run_cli(r, seed, p['cli'], dbi)
+        run_cli(r, seed, p['cli'], 1, same_process=True)
         det.restore()
         return r
     if 'two' in p:
@@ -519,7 +532,7 @@ def replay(case, seed):
         run_two_services(r, seed, case['scheme'], case['order'])
         return r['violations']
     if case.get('cli'):
-        run_cli(r, seed, case['scheme'], case['db'])
+        run_cli(r, seed, case['scheme'], case['db'], same_process=bool(case.get('same_process')))
         return r['violations']
     run_case(r, seed, case['scheme'], case['db'], case['reload_before_step'], case['server_restart_before_step'], keypattern=case.get('keypattern'), cfg_over=case.get('cfg_over'),
              timing=case.get('cleanup_timers_fired_after_step'), early_object_at=case.get('early_client_object_loaded_before_step'))
